@@ -49,6 +49,13 @@ POSITIONS = {
     "assert-statement": lambda imp, name: "assert {ok = (%s).val > 0, desc = \"d\"};\nlet %s = (%s).val;\n" % (imp, name, imp),
     "module-out-constraint": lambda imp, name: "let %s_mod = module {} => (r :: ((%s).val)) { let r = (%s).val; };\nlet %s = %s_mod{};\n" % (name, imp, imp, name, name),
     "format-template-expression": lambda imp, name: "let %s = int(\"@{(%s).val + item.x}\" %% {x = 0});\n" % (name, imp.replace('"', '\\"')),
+    # a callback that is run by a helper function defined in a file WITHOUT any import of its own (std/functional.ucg)
+    "callback-run-by-std-maybe-do": lambda imp, name: ("let %s_fn = import \"std/functional.ucg\";\nlet %s = %s_fn.maybe{val = 1}.do(func (v) => (%s).val).unwrap();\n"
+                                                       % (name, name, name, imp)),
+    "callback-run-by-std-maybe-or": lambda imp, name: ("let %s_fn = import \"std/functional.ucg\";\nlet %s = %s_fn.maybe{val = NULL}.or(func () => (%s).val).unwrap();\n"
+                                                       % (name, name, name, imp)),
+    "callback-run-by-std-identity-result": lambda imp, name: ("let %s_fn = import \"std/functional.ucg\";\nlet %s_g = %s_fn.identity(func () => (%s).val);\nlet %s = %s_g();\n"
+                                                              % (name, name, name, imp, name, name)),
     "trace-operand": lambda imp, name: "let %s = (%s).val + 0;\n" % (name, imp),
 }
 
